@@ -65,6 +65,10 @@ class C07(core.Prop):
             for r in range(5):
                 out.append({'n': 5, 'edges': bow, 'perm': [(i + r) % 5 for i in range(5)], 'stride': 1})
             out.append({'n': 5, 'edges': bow, 'perm': [4, 3, 2, 1, 0], 'stride': 1})
+            # more than nine ring bonds open at once (markers 10, 11 are written %10, %11)
+            n = 13
+            out.append({'n': n, 'edges': [[0, i] for i in range(1, n)] + [[1, i] for i in range(2, n)], 'perm': list(range(n)), 'stride': 1,
+                        'free_orders': 1})
             # dense graphs (many ring bonds open at once, markers released and re-used out of order): every 5-node graph
             # with 6-10 edges, 2 bond orders symbolic
             for g in atlas(5, 5):
